@@ -7,7 +7,7 @@ package main
 //     at pseudo-random points, reads everything the session writes, logs out,
 //   * the message store (memory or file) wrapped by a goroutine-safe logging store.
 // Op:   srcfacts   (first case only)  =>  facts <function:storeMethod …>   direct outbound store mutations in the source
-// Op:   round store=mem|file persist=0|1 senders=N per=K early=0|1 reset=0|1|2 rr=R tr=T hb=H outcap=C init=0|1 seed=S
+// Op:   round store=mem|file persist=0|1 senders=N per=K early=0|1 reset=0|1|2 rr=R tr=T hb=H outcap=C init=0|1 op=0|1|2 seed=S
 // Obs:  ok <finalSender> <storedRanges|-> <accepted> <live> <event tokens…>   (or  stalled <stage> | panic | crashed)
 //   tokens (one total order: store events under the store wrapper's lock, wire events as the peer reads them):
 //     a<n>.<snew>.<0|1>  number n handed out, store's next number afterwards, message saved or only counted
@@ -173,19 +173,69 @@ func (f concStoreFactory) Create(id quickfix.SessionID) (quickfix.MessageStore, 
 	return cs, nil
 }
 
+// ---------------------------------------------------------------- session log and application of a stress session
+//
+// concLog is the session's quickfix.Log: the engine calls OnOutgoing right after it has handed a message to the
+// connection, still inside sendMutex, so wire writes and store mutations are recorded in ONE exact total order.
+// What the peer reads from the connection channel is compared with this record at the end of the round.
+type concLog struct{ cs *concSess }
+
+func (l concLog) OnIncoming([]byte) {}
+func (l concLog) OnOutgoing(b []byte) {
+	l.cs.mu.Lock()
+	f := l.cs.onOut
+	l.cs.mu.Unlock()
+	if f != nil {
+		f(b)
+	}
+}
+func (l concLog) OnEvent(string)                  {}
+func (l concLog) OnEventf(string, ...interface{}) {}
+
+type concLogFactory struct{ cs *concSess }
+
+func (f concLogFactory) Create() (quickfix.Log, error)                             { return concLog{f.cs}, nil }
+func (f concLogFactory) CreateSessionLog(quickfix.SessionID) (quickfix.Log, error) { return concLog{f.cs}, nil }
+
+// concApp: the application of a stress session; its ToApp callback (run by the event loop for every message it is
+// about to replay) is where an operator's ResetSession can be timed into the middle of a replay.
+type concApp struct {
+	nullApp
+	cs *concSess
+}
+
+func (a concApp) ToApp(m *quickfix.Message, _ quickfix.SessionID) error {
+	if !m.Header.Has(quickfix.Tag(43)) {
+		return nil
+	}
+	a.cs.mu.Lock()
+	f := a.cs.onReplay
+	a.cs.mu.Unlock()
+	if f != nil {
+		f()
+	}
+	return nil
+}
+
 // ---------------------------------------------------------------- session pool
 
 type concSess struct {
 	v     *quickfix.VerifConcSession
+	id    quickfix.SessionID
 	log   *evLog
 	store *concStore
 	dir   string
+
+	mu       sync.Mutex
+	onOut    func([]byte) // set by the round before the connection exists
+	onReplay func()       // set by rounds with an operator
 }
 
 type concImpl struct {
-	pool map[string][]*concSess
-	tmp  string
-	nDir int
+	pool  map[string][]*concSess
+	tmp   string
+	nDir  int
+	nSess int
 }
 
 var concID = quickfix.SessionID{BeginString: "FIX.4.2", SenderCompID: "SND", TargetCompID: "TGT"}
@@ -195,10 +245,13 @@ func concKey(store string, persist bool, reset int, initiator bool) string {
 }
 
 func (c *concImpl) build(store string, persist bool, reset int, initiator bool) *concSess {
+	// every session has its own SessionID: rounds with an operator put it into the registry
+	c.nSess++
+	id := quickfix.SessionID{BeginString: concID.BeginString, SenderCompID: fmt.Sprintf("S%d", c.nSess), TargetCompID: concID.TargetCompID}
 	st := quickfix.NewSessionSettings()
-	st.Set(config.BeginString, concID.BeginString)
-	st.Set(config.SenderCompID, concID.SenderCompID)
-	st.Set(config.TargetCompID, concID.TargetCompID)
+	st.Set(config.BeginString, id.BeginString)
+	st.Set(config.SenderCompID, id.SenderCompID)
+	st.Set(config.TargetCompID, id.TargetCompID)
 	st.Set(config.HeartBtInt, "30")
 	if !persist {
 		st.Set(config.PersistMessages, "N")
@@ -210,7 +263,7 @@ func (c *concImpl) build(store string, persist bool, reset int, initiator bool) 
 		st.Set(config.SocketConnectHost, "127.0.0.1")
 		st.Set(config.SocketConnectPort, "1")
 	}
-	cs := &concSess{log: &evLog{}}
+	cs := &concSess{log: &evLog{}, id: id}
 	var inner quickfix.MessageStoreFactory = quickfix.NewMemoryStoreFactory()
 	if store == "file" {
 		c.nDir++
@@ -223,7 +276,7 @@ func (c *concImpl) build(store string, persist bool, reset int, initiator bool) 
 		inner = file.NewStoreFactory(gs)
 		cs.dir = dir
 	}
-	v, err := quickfix.VerifNewConcSession(initiator, concID, concStoreFactory{inner: inner, log: cs.log, made: &cs.store}, st, quickfix.NewNullLogFactory(), nullApp{})
+	v, err := quickfix.VerifNewConcSession(initiator, id, concStoreFactory{inner: inner, log: cs.log, made: &cs.store}, st, concLogFactory{cs}, concApp{cs: cs})
 	mustf(err, "cannot build session")
 	cs.v = v
 	v.RunAsync()
@@ -333,6 +386,8 @@ type concPeer struct {
 	rid       int
 	highFirst int
 	nRead     int
+	sent, got []string // what the engine says it wrote / what arrived on the connection
+	nHB       int
 	firstSeen map[int]bool
 	answered  chan struct{}
 	logonSeen chan struct{}
@@ -344,57 +399,78 @@ type concPeer struct {
 	once1, once2 sync.Once
 }
 
+// onOut runs inside the engine (sendBytes, under sendMutex) for every message handed to the connection
+func (p *concPeer) onOut(b []byte) {
+	m, ok := safeScan(b)
+	p.mu.Lock()
+	defer p.mu.Unlock()
+	p.nRead++
+	if !ok || m.kind == "" {
+		p.log.add("X")
+		return
+	}
+	p.sent = append(p.sent, wireKey(m))
+	if m.dup {
+		if p.open == nil && len(p.pending) > 0 {
+			r := p.pending[0]
+			p.pending = p.pending[1:]
+			p.open = &r
+			p.rid++
+			p.log.add("L")
+		}
+		rid := 0
+		if p.open != nil {
+			rid = p.rid
+		}
+		p.log.add(fmt.Sprintf("w%dd%d", m.seq, rid))
+		covered := m.seq
+		if m.kind == "4" {
+			covered = m.newSeq - 1
+		}
+		if p.open != nil && covered >= p.open.e {
+			p.log.add("U")
+			p.open = nil
+			select {
+			case p.answered <- struct{}{}:
+			default:
+			}
+		}
+		return
+	}
+	p.log.add(fmt.Sprintf("w%df", m.seq))
+	p.firstSeen[m.seq] = true
+	// first-time numbers increase within an epoch: a lower one means the sequence was reset, and a
+	// ResendRequest must only name numbers of the current epoch
+	p.highFirst = m.seq
+	if m.kind == "A" {
+		p.logonReset = m.reset
+		p.once1.Do(func() { close(p.logonSeen) })
+	}
+	if m.kind == "0" {
+		p.nHB++
+		p.onceHB.Do(func() { close(p.hbSeen) })
+	}
+	if m.kind == "5" {
+		p.once2.Do(func() { close(p.logoutSeen) })
+	}
+}
+
+func wireKey(m outMsgInfo) string {
+	if m.dup {
+		return fmt.Sprintf("%dd", m.seq)
+	}
+	return fmt.Sprintf("%df", m.seq)
+}
+
+// read drains the connection as a peer does and keeps what arrived, in order
 func (p *concPeer) read(out <-chan []byte) {
 	for b := range out {
 		m, ok := safeScan(b)
 		p.mu.Lock()
-		p.nRead++
-		if !ok || m.kind == "" {
-			p.log.add("X")
-			p.mu.Unlock()
-			continue
-		}
-		if m.dup {
-			if p.open == nil && len(p.pending) > 0 {
-				r := p.pending[0]
-				p.pending = p.pending[1:]
-				p.open = &r
-				p.rid++
-				p.log.add("L")
-			}
-			rid := 0
-			if p.open != nil {
-				rid = p.rid
-			}
-			p.log.add(fmt.Sprintf("w%dd%d", m.seq, rid))
-			covered := m.seq
-			if m.kind == "4" {
-				covered = m.newSeq - 1
-			}
-			if p.open != nil && covered >= p.open.e {
-				p.log.add("U")
-				p.open = nil
-				select {
-				case p.answered <- struct{}{}:
-				default:
-				}
-			}
+		if ok && m.kind != "" {
+			p.got = append(p.got, wireKey(m))
 		} else {
-			p.log.add(fmt.Sprintf("w%df", m.seq))
-			p.firstSeen[m.seq] = true
-			// first-time numbers increase within an epoch: a lower one means the sequence was reset, and a
-			// ResendRequest must only name numbers of the current epoch
-			p.highFirst = m.seq
-			if m.kind == "A" {
-				p.logonReset = m.reset
-				p.once1.Do(func() { close(p.logonSeen) })
-			}
-			if m.kind == "0" {
-				p.onceHB.Do(func() { close(p.hbSeen) })
-			}
-			if m.kind == "5" {
-				p.once2.Do(func() { close(p.logoutSeen) })
-			}
+			p.got = append(p.got, "X")
 		}
 		p.mu.Unlock()
 	}
@@ -429,15 +505,16 @@ func (p *concPeer) await(ch <-chan struct{}, v *quickfix.VerifConcSession) strin
 			if n != last {
 				last, lastChange = n, time.Now()
 			}
-			if time.Since(lastChange) > 3*time.Second || time.Now().After(deadline) {
+			if time.Since(lastChange) > quietWindow() || time.Now().After(deadline) {
+				atomic.AddInt32(&concStalls, 1)
 				return "stalled"
 			}
 		}
 	}
 }
 
-func concInbound(seq int, kind string, extra ...string) []byte {
-	f := []string{"8=FIX.4.2", "35=" + kind, "49=TGT", "56=SND", "34=" + strconv.Itoa(seq), "52=@0"}
+func concInbound(to string, seq int, kind string, extra ...string) []byte {
+	f := []string{"8=FIX.4.2", "35=" + kind, "49=TGT", "56=" + to, "34=" + strconv.Itoa(seq), "52=@0"}
 	return wireBytes(append(f, extra...))
 }
 
@@ -465,6 +542,17 @@ func pause(r *rng) {
 }
 
 const concStall = 15 * time.Second
+
+// concStalls counts the rounds of this worker that gave up waiting: after a handful the engine is evidently broken
+// (each of those rounds is already a reported observation) and the remaining rounds wait less patiently
+var concStalls int32
+
+func quietWindow() time.Duration {
+	if atomic.LoadInt32(&concStalls) >= 6 {
+		return 400 * time.Millisecond
+	}
+	return 3 * time.Second
+}
 
 func rangesOf(xs []int) string {
 	if len(xs) == 0 {
@@ -496,6 +584,42 @@ func (c *concImpl) round(kv map[string]string) string {
 	v := cs.v
 	p := &concPeer{log: cs.log, firstSeen: map[int]bool{}, answered: make(chan struct{}, 1), logonSeen: make(chan struct{}),
 		hbSeen: make(chan struct{}), logoutSeen: make(chan struct{}), closed: make(chan struct{})}
+	cs.mu.Lock()
+	cs.onOut = p.onOut
+	cs.mu.Unlock()
+
+	// the operator: a foreign goroutine calling the public quickfix.ResetSession (op=1 at a pseudo-random point of the
+	// script, op=2 from inside a replay: the ToApp callback of the SECOND message the event loop is about to replay)
+	op := atoi("op")
+	operDone := make(chan struct{})
+	var operFired int32
+	var replayMsgs int32
+	fireOperator := func() bool {
+		if !atomic.CompareAndSwapInt32(&operFired, 0, 1) {
+			return false
+		}
+		go func() {
+			defer func() { recover(); close(operDone) }()
+			quickfix.ResetSession(cs.id)
+		}()
+		return true
+	}
+	if op != 0 {
+		if err := v.Register(); err != nil {
+			return "stalled register"
+		}
+		defer v.Unregister()
+	}
+	if op == 2 {
+		cs.mu.Lock()
+		cs.onReplay = func() {
+			if atomic.AddInt32(&replayMsgs, 1) == 2 && fireOperator() {
+				// give the operator the time to get as far as the engine lets it
+				time.Sleep(400 * time.Microsecond)
+			}
+		}
+		cs.mu.Unlock()
+	}
 
 	var accepted, senderPanics int64
 	var wg sync.WaitGroup
@@ -527,7 +651,7 @@ func (c *concImpl) round(kv map[string]string) string {
 	injectFailed := false
 	inject := func(kind string, extra ...string) {
 		inSeq++
-		b := concInbound(inSeq, kind, extra...)
+		b := concInbound(cs.id.SenderCompID, inSeq, kind, extra...)
 		done := make(chan struct{})
 		go func() { v.Inject(b); close(done) }()
 		if !waitCh(done, concStall) {
@@ -597,15 +721,58 @@ func (c *concImpl) round(kv map[string]string) string {
 	for i := 0; i < nHB; i++ {
 		actions = append(actions, "hb")
 	}
+	if op == 1 {
+		actions = append(actions, "op")
+	}
 	for i := len(actions) - 1; i > 0; i-- {
 		j := r.intn(i + 1)
 		actions[i], actions[j] = actions[j], actions[i]
+	}
+	// after the operator's reset both sequence numbers start again at 1, and numbers of the old epoch are gone
+	afterReset := func() string {
+		if w := p.await(operDone, v); w != "" {
+			return outcome("operator", w)
+		}
+		inSeq = 0
+		p.mu.Lock()
+		p.highFirst = 0
+		p.mu.Unlock()
+		return ""
+	}
+	postResetDone := false
+	hbCount := func() int {
+		p.mu.Lock()
+		defer p.mu.Unlock()
+		return p.nHB
 	}
 	for _, a := range actions {
 		for i := r.intn(12); i >= 0; i-- {
 			pause(r)
 		}
 		switch a {
+		case "op":
+			// nothing of the peer's may be in flight when the inbound numbering restarts: a TestRequest round trip first
+			before := hbCount()
+			inject("1", "112=DRAIN")
+			drained := make(chan struct{})
+			go func() {
+				for hbCount() == before {
+					select {
+					case <-v.Done():
+						return
+					default:
+						time.Sleep(100 * time.Microsecond)
+					}
+				}
+				close(drained)
+			}()
+			if w := p.await(drained, v); w != "" {
+				return outcome("drain", w)
+			}
+			fireOperator()
+			if w := afterReset(); w != "" {
+				return w
+			}
 		case "tr":
 			inject("1", "112=T"+strconv.Itoa(inSeq))
 		case "hb":
@@ -620,12 +787,24 @@ func (c *concImpl) round(kv map[string]string) string {
 			}
 			b := 1 + r.intn(hi)
 			e := b + r.intn(min(hi-b+1, 40))
+			if op == 2 && atomic.LoadInt32(&operFired) == 0 && hi >= 4 {
+				// a replay of several stored messages, for the operator to land in
+				b = 1 + r.intn(hi-3)
+				e = b + 3 + r.intn(min(hi-b-2, 12))
+			}
+			atomic.StoreInt32(&replayMsgs, 0)
 			p.mu.Lock()
 			p.pending = append(p.pending, rrReq{b, e})
 			p.mu.Unlock()
 			inject("2", "7="+strconv.Itoa(b), "16="+strconv.Itoa(e))
 			if w := p.await(p.answered, v); w != "" {
 				return outcome("resend", w)
+			}
+			if op == 2 && atomic.LoadInt32(&operFired) == 1 && !postResetDone {
+				postResetDone = true
+				if w := afterReset(); w != "" {
+					return w
+				}
 			}
 		}
 	}
@@ -647,8 +826,18 @@ func (c *concImpl) round(kv map[string]string) string {
 		}
 		return xs
 	}
+	if op == 2 && atomic.LoadInt32(&operFired) == 0 {
+		// no replay was long enough: the operator acts now
+		fireOperator()
+	}
+	if op == 2 && !postResetDone {
+		postResetDone = true
+		if w := afterReset(); w != "" {
+			return w
+		}
+	}
 	live := 0
-	if !early {
+	if !early && op == 0 {
 		// wait until every number has been seen, or nothing new has arrived for a while (never assert timing:
 		// the verdict is the monitor's, on the recorded events)
 		live = 1
@@ -674,7 +863,10 @@ func (c *concImpl) round(kv map[string]string) string {
 			if count != lastCount {
 				lastCount, lastChange = count, time.Now()
 			}
-			if !missing || !consecutive || time.Since(lastChange) > 3*time.Second {
+			if !missing || !consecutive || time.Since(lastChange) > quietWindow() {
+				if missing && consecutive {
+					atomic.AddInt32(&concStalls, 1)
+				}
 				break
 			}
 			time.Sleep(200 * time.Microsecond)
@@ -709,6 +901,16 @@ func (c *concImpl) round(kv map[string]string) string {
 	cs.log.mu.Lock()
 	toks := append([]string(nil), cs.log.toks...)
 	cs.log.mu.Unlock()
+	// what arrived on the connection must be what the engine recorded as written, in the same order
+	p.mu.Lock()
+	same := len(p.sent) == len(p.got)
+	for i := 0; same && i < len(p.sent); i++ {
+		same = p.sent[i] == p.got[i]
+	}
+	p.mu.Unlock()
+	if !same {
+		toks = append(toks, "X")
+	}
 	return fmt.Sprintf("ok %d %s %d %d %s", sender, rangesOf(stored), atomic.LoadInt64(&accepted), live, strings.Join(toks, " "))
 }
 
@@ -750,9 +952,17 @@ func genConc(r *rng, tier string, idx int, o *out, do func(string) string) strin
 	nRR, nTR, nHB := r.intn(4), r.intn(4), r.intn(3)
 	outcap := []int{0, 1, 4, 64}[r.intn(4)]
 	initiator := r.chance(1, 4)
+	oper := 0
+	switch r.intn(10) {
+	case 0:
+		oper = 1
+	case 1, 2:
+		oper, persist, early = 2, true, false
+		nRR = max(nRR, 2)
+	}
 	b01 := map[bool]string{true: "1", false: "0"}
-	op := fmt.Sprintf("round store=%s persist=%s senders=%d per=%d early=%s reset=%d rr=%d tr=%d hb=%d outcap=%d init=%s seed=%d",
-		store, b01[persist], senders, per, b01[early], reset, nRR, nTR, nHB, outcap, b01[initiator], r.u64()%1000000007)
+	op := fmt.Sprintf("round store=%s persist=%s senders=%d per=%d early=%s reset=%d rr=%d tr=%d hb=%d outcap=%d init=%s op=%d seed=%d",
+		store, b01[persist], senders, per, b01[early], reset, nRR, nTR, nHB, outcap, b01[initiator], oper, r.u64()%1000000007)
 	obs := do(op)
 	if n := len(o.samples); n > 0 && len(o.samples[n-1]) > 600 {
 		o.samples[n-1] = o.samples[n-1][:600] + " …"
@@ -763,15 +973,16 @@ func genConc(r *rng, tier string, idx int, o *out, do func(string) string) strin
 	o.kind(fmt.Sprintf("early=%v", early))
 	o.kind(fmt.Sprintf("reset=%d", reset))
 	o.kind(fmt.Sprintf("initiator=%v", initiator))
+	o.kind(fmt.Sprintf("operator=%d", oper))
 	if strings.HasPrefix(obs, "ok ") {
 		n := strings.Count(obs, " w")
 		o.kind("rounds_ok")
 		o.kinds["wire_events"] += n
 		o.kinds["replay_answers"] += strings.Count(obs, " L")
 		if strings.Contains(obs, " L") {
-			o.nontrivial(fmt.Sprintf("%s/%v/%v/%d/%d/%v/rr", store, persist, early, reset, senders, initiator))
+			o.nontrivial(fmt.Sprintf("%s/%v/%v/%d/%d/%v/%d/rr", store, persist, early, reset, senders, initiator, oper))
 		} else {
-			o.nontrivial(fmt.Sprintf("%s/%v/%v/%d/%d/%v", store, persist, early, reset, senders, initiator))
+			o.nontrivial(fmt.Sprintf("%s/%v/%v/%d/%d/%v/%d", store, persist, early, reset, senders, initiator, oper))
 		}
 	} else {
 		o.kind("rounds_" + strings.Fields(obs)[0])
